@@ -331,25 +331,27 @@ func (e *handlerStore[T]) off(handler ...T) {
 		return
 	}
 
-	remove := func(slice []T, s int) []T {
-		return append(slice[:s], slice[s+1:]...)
-	}
-
-	for i, h := range e.funcs {
-		for _, _h := range handler {
-			if h == _h {
-				e.funcs = remove(e.funcs, i)
+	// Do not remove the elements while ranging over the slice.
+	// The indexes shift, and the slice operation goes out of range.
+	remove := func(slice []T) []T {
+		var remaining []T
+		for _, h := range slice {
+			matched := false
+			for _, _h := range handler {
+				if h == _h {
+					matched = true
+					break
+				}
+			}
+			if !matched {
+				remaining = append(remaining, h)
 			}
 		}
+		return remaining
 	}
 
-	for i, h := range e.funcsOnce {
-		for _, _h := range handler {
-			if h == _h {
-				e.funcsOnce = remove(e.funcsOnce, i)
-			}
-		}
-	}
+	e.funcs = remove(e.funcs)
+	e.funcsOnce = remove(e.funcsOnce)
 }
 
 func (e *handlerStore[T]) offAll() {
@@ -416,21 +418,28 @@ func (e *eventHandlerStore) off(eventName string, handler ...reflect.Value) {
 		return
 	}
 
-	remove := func(slice []*eventHandler, s int) []*eventHandler {
-		return append(slice[:s], slice[s+1:]...)
+	// Do not remove the elements while ranging over the slice.
+	// The indexes shift, and the slice operation goes out of range.
+	remove := func(slice []*eventHandler) []*eventHandler {
+		var remaining []*eventHandler
+		for _, event := range slice {
+			matched := false
+			for _, h := range handler {
+				if event.rv.Pointer() == h.Pointer() {
+					matched = true
+					break
+				}
+			}
+			if !matched {
+				remaining = append(remaining, event)
+			}
+		}
+		return remaining
 	}
 
 	events, ok := e.events[eventName]
 	if ok {
-		for i, event := range events {
-			for _, h := range handler {
-				ep := event.rv.Pointer()
-				hp := h.Pointer()
-				if ep == hp {
-					events = remove(events, i)
-				}
-			}
-		}
+		events = remove(events)
 		if len(events) == 0 {
 			delete(e.events, eventName)
 		} else {
@@ -440,15 +449,7 @@ func (e *eventHandlerStore) off(eventName string, handler ...reflect.Value) {
 
 	eventsOnce, ok := e.eventsOnce[eventName]
 	if ok {
-		for i, event := range eventsOnce {
-			for _, h := range handler {
-				ep := event.rv.Pointer()
-				hp := h.Pointer()
-				if ep == hp {
-					eventsOnce = remove(eventsOnce, i)
-				}
-			}
-		}
+		eventsOnce = remove(eventsOnce)
 		if len(eventsOnce) == 0 {
 			delete(e.eventsOnce, eventName)
 		} else {
